@@ -1,12 +1,21 @@
 (* Property C20 - autodiscovery selects exactly the public modules, with right import paths.
-   Only statements here; proofs live in Discover/Proofs.v.  Model: Discover/Model.v.
+   Only statements here; proofs live in Discover/Proofs.v.  Model: Discover/Model.v (loader.py as of the
+   fix commits dfdce86 - the configured directory is glob-escaped - and faed18b - only files are returned).
 
-   Reading aid.  A sandbox is a tree [fs]; [reaches f p c]: path p leads from f to node c;
+   Reading aid.  A sandbox is a tree [fs]; [node_at f p = Some c]: looking path p up from f finds node c (stat);
+   [reaches f p c]: some chain of directory entries spells p (the same thing on a well-formed tree);
    [selected suf f] = what _search_dirs returns below one directory (paths relative to it);
    [glob_ok suf p] = p non-empty, no hidden component, last component ends with suf;
    [public_rel p]  = no directory component starts with "_", and the name does not either unless it is
-   "__init__.py";  [module_path pkg rel] = _filepath_to_python_module;  [py_find es parts] = the file
-   Python's import system loads for the dotted name [parts] when searching directory [es]. *)
+   "__init__.py";  [public_file suf f p] = the three together;  [module_path pkg rel] = _filepath_to_python_module;
+   [clean_part s] = s non-empty and without '.';  [stem_of n s] = s is the file name n without its final suffix and
+   neither contains another '.';  [drop_init parts] = parts without a trailing "__init__" (if something precedes it);
+   [py_find es parts] = the file Python's import system loads for the dotted name [parts] searching directory [es].
+
+   The recorded finding c20-dotted-name (known_findings.json) is the input class [dotted_trigger rel = true]:
+   some component of the file's relative path contains a '.' besides the final suffix.  The theorems about the dot
+   path carry exactly the negation of that class as their guard ([guard_is_negated_trigger]); what the code does
+   inside the class is stated by the [_refuted] theorems. *)
 From DJC Require Import Lib.Base Discover.Model Discover.Proofs.
 From DJC Require Gen.C20.
 
@@ -37,46 +46,63 @@ Theorem search_never_raises : forall suf f, search_dir suf f = Ok (selected suf 
 Proof. exact search_dir_ok_lemma. Qed.
 Print Assumptions search_never_raises.
 
-(* Returned <-> exists, has the suffix, no hidden part, no "_" part except a final __init__.py.
-   _partial: the statement says "the FILES"; the code (and so the model) also returns DIRECTORIES that
-   satisfy the same conditions - see selected_iff_public_refuted and the guarded full statement below. *)
-Theorem selected_iff_public_partial : forall suf f p,
-  In p (selected suf f) <-> (exists c, reaches f p c) /\ glob_ok suf p /\ public_rel p.
+(* FULL, every tree, every suffix: returned <-> it is a FILE, has the suffix, has no hidden part, and no part
+   starts with "_" except a final __init__.py. *)
+Theorem selected_iff_public : forall suf f p,
+  In p (selected suf f) <-> node_at f p = Some File /\ glob_ok suf p /\ public_rel p.
 Proof. exact selected_iff_lemma. Qed.
-Print Assumptions selected_iff_public_partial.
+Print Assumptions selected_iff_public.
 
-(* Completeness holds in full: every public file with the suffix is returned. *)
-Theorem public_files_all_selected : forall suf f p,
-  reaches f p File -> glob_ok suf p -> public_rel p -> In p (selected suf f).
-Proof. exact public_files_selected_lemma. Qed.
-Print Assumptions public_files_all_selected.
+(* the same read with [reaches], on trees whose directories have unique names (every file system) *)
+Theorem selected_iff_public_reaches : forall suf f p,
+  wf f -> (In p (selected suf f) <-> reaches f p File /\ glob_ok suf p /\ public_rel p).
+Proof. exact selected_iff_reaches_lemma. Qed.
+Print Assumptions selected_iff_public_reaches.
 
-(* The full statement ("exactly the files ...") is false for the current code: a directory named x.py. *)
-Theorem selected_iff_public_refuted : exists suf f p, In p (selected suf f) /\ ~ reaches f p File.
-Proof. exact selected_dir_refuted_lemma. Qed.
-Print Assumptions selected_iff_public_refuted.
+(* a directory is never returned, whatever its name (x.py/) and whatever the suffix (none) *)
+Theorem selected_never_a_directory : forall suf f p es, In p (selected suf f) -> node_at f p <> Some (Dir es).
+Proof. exact selected_never_dir_lemma. Qed.
+Print Assumptions selected_never_a_directory.
 
-(* ... and true on every tree in which no directory name ends with the suffix. *)
-Theorem selected_iff_public_files : forall suf f p,
-  no_dir_matches suf f ->
-  (In p (selected suf f) <-> reaches f p File /\ glob_ok suf p /\ public_rel p).
-Proof. exact selected_iff_files_lemma. Qed.
-Print Assumptions selected_iff_public_files.
+(* get_component_files as a whole: the returned file paths are the public files below every configured directory
+   that pass the ".." filter of the COMPONENTS.dirs loop, plus the public files below every [app]/[app_dir]. *)
+Theorem files_returned_iff : forall w suffix l dirs,
+  get_component_files w suffix = Ok l -> get_component_dirs w false = Ok dirs ->
+  forall fp, In fp (map snd l) <->
+    (exists d p, In d dirs /\ fp = d ++ p /\ public_file (suffix_of suffix) (tree_at (w_root w) d) p /\
+                 kept_by_dotdot (w_base w) fp = true)
+    \/ (exists s p, In s (app_sources w) /\ fp = src_dir s ++ p /\
+                    public_file (suffix_of suffix) (tree_at (w_root w) (src_dir s)) p).
+Proof. exact files_returned_iff_lemma. Qed.
+Print Assumptions files_returned_iff.
 
-(* The ".." filter of the COMPONENTS.dirs loop never removes a file whose names are clean (directory names
-   without dots, file name = stem.ext with no other dot): it is returned with its module path. *)
-Theorem dotdot_filter_keeps_clean_names : forall base d m e fp,
-  strip_prefix base fp = Some (d ++ [m ++ DOT :: e]) -> clean_rel d m e ->
-  dir_entry_of base fp = Ok (Some (module_path None (d ++ [m ++ DOT :: e]), fp)).
-Proof. exact dotdot_filter_noop_lemma. Qed.
-Print Assumptions dotdot_filter_keeps_clean_names.
+(* ... and when no public file of a configured directory is in the dotted-name class, the ".." filter removes
+   nothing: get_component_files returns EXACTLY the public files of all its source directories. *)
+Theorem files_exactly_public : forall w suffix l dirs,
+  get_component_files w suffix = Ok l -> get_component_dirs w false = Ok dirs ->
+  (forall d p, In d dirs -> public_file (suffix_of suffix) (tree_at (w_root w) d) p ->
+     exists rel, strip_prefix (w_base w) (d ++ p) = Some rel /\ no_interior_dot rel) ->
+  forall fp, In fp (map snd l) <->
+    exists src p, In src (dirs ++ map src_dir (app_sources w)) /\ fp = src ++ p /\
+                  public_file (suffix_of suffix) (tree_at (w_root w) src) p.
+Proof. exact files_exactly_public_lemma. Qed.
+Print Assumptions files_exactly_public.
 
-(* Outside that guard the filter does drop public, non-hidden files (ab..cd.py). *)
-Theorem dotdot_filter_drops_public_file_refuted :
+(* Inside the class the filter does drop public, non-hidden files (ab..cd.py): part of the recorded finding. *)
+Theorem files_exactly_public_refuted :
   exists w l d p, get_component_files w (Some PY) = Ok l /\ get_component_dirs w false = Ok [d] /\
-    reaches (tree_at (w_root w) d) p File /\ glob_ok PY p /\ public_rel p /\ ~ In (d ++ p) (map snd l).
+    public_file PY (tree_at (w_root w) d) p /\ dotted_trigger (d ++ p) = true /\ ~ In (d ++ p) (map snd l).
 Proof. exact dotdot_drops_public_file_refuted_lemma. Qed.
-Print Assumptions dotdot_filter_drops_public_file_refuted.
+Print Assumptions files_exactly_public_refuted.
+
+(* The dot path that comes with a returned file: relative to BASE_DIR for configured directories, relative to the
+   app's directory and prefixed with the app's name for app directories. *)
+Theorem entries_dot_path : forall w suffix l dp fp,
+  get_component_files w suffix = Ok l -> In (dp, fp) l ->
+  (exists rel, strip_prefix (w_base w) fp = Some rel /\ dp = module_path None rel) \/
+  (exists s p, In s (app_sources w) /\ fp = src_dir s ++ p /\ dp = module_path (Some (fst (fst s))) (snd s ++ p)).
+Proof. exact entries_dot_path_lemma. Qed.
+Print Assumptions entries_dot_path.
 
 (* ---------------- each once ---------------- *)
 
@@ -110,17 +136,38 @@ Print Assumptions each_once_without_independence_refuted.
 
 (* ---------------- the dot path ---------------- *)
 
-(* split "." (dot_path f) = the path components of f without the extension (a trailing __init__ dropped),
-   when no component contains "." besides the extension.  (For app files the same holds with the app's name
-   in front, see app_module_path.) *)
-Theorem dot_path_roundtrip : forall d m e,
-  clean_rel d m e ->
-  split_dot (module_path None (d ++ [m ++ DOT :: e])) = import_parts (d ++ [m ++ DOT :: e]).
+(* The guard of the theorems below is the negation of the recorded finding's input class, as the harness decides
+   it on the generated tree (dotted_trigger = harness/c20.py:has_interior_dot, compared on every generated file). *)
+Theorem guard_is_negated_trigger : forall rel,
+  rel <> [] -> Forall (fun n : str => n <> []) rel ->
+  (dotted_trigger rel = false <-> no_interior_dot rel).
+Proof. exact guard_is_negated_trigger_lemma. Qed.
+Print Assumptions guard_is_negated_trigger.
+
+(* split "." (dot_path f) = the path components of f, the last one without its suffix, a trailing __init__
+   dropped - when no component contains "." besides the suffix.  d = directory names, n = file name, s = its stem. *)
+Theorem dot_path_roundtrip : forall d n s,
+  Forall clean_part d -> clean_part s -> stem_of n s ->
+  split_dot (module_path None (d ++ [n])) = drop_init (d ++ [s]).
 Proof. exact dot_path_roundtrip_lemma. Qed.
 Print Assumptions dot_path_roundtrip.
 
-Theorem init_maps_to_package : forall d,
-  d <> [] -> Forall clean_part d -> module_path None (d ++ [INIT_PY]) = join_dot d.
+(* App loop: the same with the components np of AppConfig.name in front (package_prefix ++ parts). *)
+Theorem dot_path_roundtrip_app : forall np d n s,
+  np <> [] -> Forall clean_part np -> Forall clean_part d -> clean_part s -> stem_of n s ->
+  split_dot (module_path (Some (join_dot np)) (d ++ [n])) = drop_init (np ++ d ++ [s]).
+Proof. exact dot_path_roundtrip_app_lemma. Qed.
+Print Assumptions dot_path_roundtrip_app.
+
+(* Outside the guard the round trip fails for the current code: comps/my.comp.py -> comps.my.comp. *)
+Theorem dot_path_roundtrip_refuted :
+  exists d n, Forall clean_part d /\ n <> [] /\ dotted_trigger (d ++ [n]) = true /\
+              split_dot (module_path None (d ++ [n])) <> drop_init (d ++ [strip_suffix n]).
+Proof. exact dot_path_roundtrip_refuted_lemma. Qed.
+Print Assumptions dot_path_roundtrip_refuted.
+
+(* d/__init__.py gets the dotted name of the package d - no guard needed, whatever the directory names are. *)
+Theorem init_maps_to_package : forall d, d <> [] -> module_path None (d ++ [INIT_PY]) = join_dot d.
 Proof. exact init_maps_to_package_lemma. Qed.
 Print Assumptions init_maps_to_package.
 
@@ -132,19 +179,26 @@ Theorem app_module_path : forall np rel,
 Proof. exact app_module_path_lemma. Qed.
 Print Assumptions app_module_path.
 
+(* The ".." filter of the COMPONENTS.dirs loop never removes a file outside the dotted-name class. *)
+Theorem dotdot_filter_keeps_clean_names : forall base d n s fp,
+  strip_prefix base fp = Some (d ++ [n]) -> Forall clean_part d -> clean_part s -> stem_of n s ->
+  dir_entry_of base fp = Ok (Some (module_path None (d ++ [n]), fp)).
+Proof. exact dotdot_filter_noop_lemma. Qed.
+Print Assumptions dotdot_filter_keeps_clean_names.
+
 (* The returned dot path is the name under which Python imports exactly that file: for every directory [es]
    used as import root and every .py file d/m.py below it with clean names that is importable at all
    (its directories are packages, nothing of the same name shadows it). *)
 Theorem dot_path_imports_the_file : forall es d m,
-  clean_rel d m PYEXT -> importable es d m ->
+  Forall clean_part d -> clean_part m -> importable es d m ->
   py_find es (split_dot (module_path None (d ++ [m ++ PY]))) = Some (d ++ [m ++ PY]).
 Proof. exact import_path_right_lemma. Qed.
 Print Assumptions dot_path_imports_the_file.
 
-(* Without the clean-name guard the statement fails for the current code: my.comp.py is returned with the
-   dot path "my.comp", which does not import it. *)
+(* Without the guard the statement fails for the current code: my.comp.py is returned with the dot path
+   "my.comp", which does not import it (the recorded finding). *)
 Theorem dot_path_imports_the_file_refuted :
-  exists es rel, In rel (selected PY (Dir es)) /\ reaches (Dir es) rel File /\
+  exists es rel, In rel (selected PY (Dir es)) /\ node_at (Dir es) rel = Some File /\ dotted_trigger rel = true /\
                  py_find es (split_dot (module_path None rel)) <> Some rel.
 Proof. exact dotted_name_refuted_lemma. Qed.
 Print Assumptions dot_path_imports_the_file_refuted.
@@ -153,11 +207,13 @@ Print Assumptions dot_path_imports_the_file_refuted.
 Import Coq.Strings.String.StringSyntax.
 Local Open Scope string_scope.
 
-(* proj/{comps/{__init__.py, a.py, _p.py, .h.py, sub/{m.py}, _priv/{x.py}}}, COMPONENTS.dirs = [proj/comps] *)
+(* proj/{comps/{__init__.py, a.py, _p.py, .h.py, sub/{m.py}, _priv/{x.py}, x.py/{}}}, COMPONENTS.dirs = [proj/comps];
+   the directory x.py/ (witness of the defect fixed by faed18b) is not returned *)
 Definition ex_tree : fs :=
   Dir [(s2n "proj", Dir [(s2n "comps", Dir [
         (s2n "__init__.py", File); (s2n "a.py", File); (s2n "_p.py", File); (s2n ".h.py", File);
-        (s2n "sub", Dir [(s2n "m.py", File)]); (s2n "_priv", Dir [(s2n "x.py", File)])])])].
+        (s2n "sub", Dir [(s2n "m.py", File)]); (s2n "_priv", Dir [(s2n "x.py", File)]);
+        (s2n "x.py", Dir [])])])].
 Definition ex_world : world :=
   {| w_root := ex_tree; w_base := [s2n "proj"]; w_dirs := Some [RTuple (PAbs [s2n "proj"; s2n "comps"])];
      w_static := []; w_app_dirs := []; w_apps := [] |}.
@@ -169,32 +225,62 @@ Example ex_files :
       (s2n "comps.sub.m", [s2n "proj"; s2n "comps"; s2n "sub"; s2n "m.py"])].
 Proof. vm_compute. reflexivity. Qed.
 
-(* the premises of each_once / selected_iff_public_files / dot_path_imports_the_file hold on it *)
+(* no suffix (witness no-suffix-returns-directories): the files, not the directories sub/ and x.py/ *)
+Example ex_files_nosuffix :
+  get_component_files ex_world None =
+  Ok [(s2n "comps", [s2n "proj"; s2n "comps"; s2n "__init__.py"]);
+      (s2n "comps.a", [s2n "proj"; s2n "comps"; s2n "a.py"]);
+      (s2n "comps.sub.m", [s2n "proj"; s2n "comps"; s2n "sub"; s2n "m.py"])].
+Proof. vm_compute. reflexivity. Qed.
+
+(* the guard is satisfiable: comps/sub/m.py and comps/__init__.py are outside the dotted-name class ... *)
+Example ex_guard :
+  no_interior_dot [s2n "comps"; s2n "sub"; s2n "m.py"] /\ dotted_trigger [s2n "comps"; s2n "sub"; s2n "m.py"] = false /\
+  no_interior_dot [s2n "comps"; s2n "__init__.py"] /\ no_interior_dot [s2n "comps"; s2n "noext"] /\
+  (Forall clean_part [s2n "comps"; s2n "sub"] /\ clean_part (s2n "m") /\ stem_of (s2n "m.py") (s2n "m")).
+Proof.
+  assert (G : forall rel, rel <> [] -> Forall (fun n : str => n <> []) rel -> dotted_trigger rel = false -> no_interior_dot rel)
+    by (intros rel H1 H2 H3; apply guard_is_negated_trigger_lemma; assumption).
+  split; [apply G; [discriminate | repeat constructor; discriminate | reflexivity]|].
+  split; [reflexivity|].
+  split; [apply G; [discriminate | repeat constructor; discriminate | reflexivity]|].
+  split; [apply G; [discriminate | repeat constructor; discriminate | reflexivity]|].
+  split; [|split].
+  - repeat constructor; try discriminate; unfold dotfree; vm_compute; intuition discriminate.
+  - split; [discriminate | unfold dotfree; vm_compute; intuition discriminate].
+  - right. exists (s2n "py"). split; [reflexivity|].
+    split; (split; [discriminate | unfold dotfree; vm_compute; intuition discriminate]).
+Qed.
+
+(* ... and the class itself is inhabited by the corpus witnesses *)
+Example ex_trigger :
+  dotted_trigger [s2n "components"; s2n "my.comp.py"] = true /\ dotted_trigger [s2n "components"; s2n "v1.0"; s2n "comp.py"] = true /\
+  dotted_trigger [s2n "components"; s2n "ab..cd.py"] = true /\ dotted_trigger [s2n "components"; s2n "a.py"] = false.
+Proof. repeat split; reflexivity. Qed.
+
+(* the premises of each_once / files_exactly_public / dot_path_imports_the_file hold on the example *)
 Example ex_premises :
   wf ex_tree /\ independent ([[s2n "proj"; s2n "comps"]] ++ map src_dir (app_sources ex_world)) /\
-  clean_rel [s2n "comps"; s2n "sub"] (s2n "m") PYEXT /\
   importable [(s2n "comps", Dir [(s2n "__init__.py", File); (s2n "sub", Dir [(s2n "m.py", File)])])]
              [s2n "comps"; s2n "sub"] (s2n "m") /\
-  clean_rel [s2n "comps"] INIT PYEXT /\
   importable [(s2n "comps", Dir [(s2n "__init__.py", File)])] [s2n "comps"] INIT.
 Proof.
-  split; [|split; [|split; [|split; [|split]]]].
+  split; [|split; [|split]].
   - vm_compute. repeat split; repeat constructor; simpl; intuition discriminate.
   - vm_compute. tauto.
-  - repeat split; try discriminate; try (repeat constructor; try discriminate);
-      unfold dotfree; vm_compute; intuition discriminate.
   - vm_compute. eexists. split; [reflexivity|]. split; [discriminate|].
     eexists. split; [reflexivity|]. split; [reflexivity|]. split; [reflexivity | discriminate].
-  - repeat split; try discriminate; try (repeat constructor; try discriminate);
-      unfold dotfree; vm_compute; intuition discriminate.
   - vm_compute. eexists. split; reflexivity.
 Qed.
 
-Example ex_no_dir_matches : no_dir_matches PY (Dir [(s2n "a.py", File); (s2n "sub", Dir [(s2n "m.py", File)])]).
+(* the guard of files_exactly_public on the example: every public .py file of proj/comps is outside the class *)
+Example ex_files_guard :
+  forall d p, In d [[s2n "proj"; s2n "comps"]] -> public_file PY (tree_at ex_tree d) p ->
+    exists rel, strip_prefix (w_base ex_world) (d ++ p) = Some rel /\ no_interior_dot rel.
 Proof.
-  intros p sub Hne Hr. inversion Hr as [|es n c q f0 Hin Hq]; subst; [congruence|].
-  destruct Hin as [Heq|[Heq|[]]]; inversion Heq; subst.
-  - inversion Hq.
-  - inversion Hq as [|es' n' c' q' f' Hin' Hq']; subst; [reflexivity|].
-    destruct Hin' as [Heq'|[]]. inversion Heq'; subst. inversion Hq'.
+  intros d p [<-|[]] Hp.
+  assert (Hin : In p (selected PY (tree_at ex_tree [s2n "proj"; s2n "comps"]))) by (apply selected_iff_lemma; exact Hp).
+  vm_compute in Hin.
+  destruct Hin as [<-|[<-|[<-|[]]]]; eexists; (split; [vm_compute; reflexivity|]);
+    (apply guard_is_negated_trigger_lemma; [discriminate | repeat constructor; discriminate | reflexivity]).
 Qed.
